@@ -73,6 +73,10 @@ Proof.
     rewrite HeaderFacts.dec_to_N_spec; [reflexivity|]. apply HeaderFacts.all_b_Forall. exact Ed.
 Qed.
 
+(* ... and it is the conversion the header grammar of C11 specifies *)
+Lemma spec_conv_spec : forall v, HeaderFacts.spec_convert v (spec_conv v).
+Proof. intros v. rewrite spec_conv_model. apply HeaderFacts.convert_value_spec. Qed.
+
 Lemma opts_of_ext : forall (f g : bytes -> pv) ps, (forall v, f v = g v) ->
   HeaderFacts.opts_of f ps = HeaderFacts.opts_of g ps.
 Proof.
